@@ -459,12 +459,15 @@ def sizeless_lights(env, pop, dplan):
 
 
 def own_numbers_outside(pop, cmds, sizeless=()):
-    """Some matrix command names a row or column outside a matrix light whose size is known."""
+    """Some matrix command names a row or column outside its matrix: the size of a matrix light whose size is known, the
+    255 x 255 scratch matrix for any other target."""
     by = {p['name']: p for p in pop}
     for c in cmds:
-        if c[0] != 'matrix' or c[1] not in by or by[c[1]]['kind'] != 'matrix' or c[1] in sizeless:
+        if c[0] != 'matrix':
             continue
-        for span, n in ((c[2], by[c[1]]['height']), (c[3], by[c[1]]['width'])):
+        sized = c[1] in by and by[c[1]]['kind'] == 'matrix' and c[1] not in sizeless
+        # for every other target the machine stages into a 255 x 255 scratch matrix (the hypothesis cmd_fits of Lights/Faults.v)
+        for span, n in ((c[2], by[c[1]]['height'] if sized else 255), (c[3], by[c[1]]['width'] if sized else 255)):
             if span is not None:
                 a, b = span
                 if a >= n or (b is not None and (b >= n or b < a)):
@@ -642,6 +645,10 @@ SEEDS = [
     # D23: a row command aimed at a plain bulb / a multizone strip, then a command to another light
     (set(), [REGS, ('matrix', 'Top', (1, None), None, 0), ('color', ('light', 'Lamp'), 0)], []),
     (set(), [REGS, ('matrix', 'Strip 1', (1, 2), (0, 1), 5), ('power', ('group', 'Pole'), True, 0)], []),
+    # ... after a matrix command on a real matrix light: the mis-aimed command finds nothing staged by the earlier one
+    (set(), [REGS, ('matrix', 'Candle', (1, None), None, 0), ('matrix', 'Top', (7, None), (0, None), 0), ('color', ('light', 'Lamp'), 0)], []),
+    (set(), [REGS, ('matrix', 'Candle', (0, 5), (0, 4), 0), ('matrix', 'Strip 1', (0, None), (6, None), 0), ('matrix', 'ghost', (200, None), None, 0),
+             ('power', ('light', 'Lamp'), True, 0)], []),
     # zone command on lights without zones, unknown names everywhere
     (set(), [REGS, ('zone', 'Top', 1, 3, 0), ('zone', 'Candle', 0, None, 0), ('zone', 'Nobody', 2, None, 0), ('color', ('light', 'Lamp'), 0)], []),
     (set(), [REGS, ('color', ('light', 'ghost'), 0), ('power', ('group', 'ghost'), True, 0), ('color', ('location', 'Nobody'), 5),
